@@ -204,6 +204,8 @@ func runC06(c *Ctx) {
 	adapterBegunRule(c, "R7")
 	collectorLeavesOnlyWhenNothingIsOwed(c, "R2")
 	decodedEntriesNilChecked(c, "R9")
+	deliveryInOneCriticalSection(c, "R8")
+	workerErrorPerJob(c, "R4")
 }
 
 // ---- who may decrement / increment the counter ------------------------------------------
